@@ -387,6 +387,70 @@ fn grammar_docs(tier: &str) -> Vec<String> {
     docs
 }
 
+/// long, non-ASCII and multi-byte texts (for every byte offset some entry has a character straddling it)
+fn text_menu() -> Vec<String> {
+    let mut menu: Vec<String> = vec!["".into(), "abc".into(), "x".repeat(40), "x".repeat(300), "\u{e9}".into(), "\u{20ac}".into(), "\u{1d11e}".into(), "\u{e9}".repeat(40), "1.5\u{20ac}".into(), "\u{202e}abc".into(), "a\u{301}".repeat(30)];
+    for k in 0..4 {
+        menu.push(format!("{}{}", "a".repeat(k), "\u{20ac}".repeat(24)));
+        menu.push(format!("{}{}", "1".repeat(k), "\u{1d11e}".repeat(20)));
+    }
+    menu
+}
+
+/// positions just before the '>' or '/>' of every start / empty tag
+fn tag_ends(base: &str) -> Vec<usize> {
+    let bytes = base.as_bytes();
+    let mut tag_ends: Vec<usize> = vec![];
+    let mut i = 0;
+    while i < bytes.len() {
+        if bytes[i] == b'<' && i + 1 < bytes.len() && bytes[i + 1] != b'/' {
+            let mut j = i;
+            while j < bytes.len() && bytes[j] != b'>' {
+                j += 1;
+            }
+            let end = if j > 0 && bytes[j - 1] == b'/' { j - 1 } else { j };
+            tag_ends.push(end);
+            i = j;
+        }
+        i += 1;
+    }
+    tag_ends
+}
+
+/// byte ranges of the attribute values and of the non-blank text nodes of a document
+fn value_spans(base: &str) -> Vec<(usize, usize)> {
+    let bytes = base.as_bytes();
+    let mut spans: Vec<(usize, usize)> = vec![];
+    let mut i = 0;
+    let mut in_tag = false;
+    while i < bytes.len() {
+        match bytes[i] {
+            b'<' => in_tag = true,
+            b'>' => {
+                in_tag = false;
+                let mut j = i + 1;
+                while j < bytes.len() && bytes[j] != b'<' {
+                    j += 1;
+                }
+                if j > i + 1 && base[i + 1..j].trim() != "" {
+                    spans.push((i + 1, j));
+                }
+            }
+            b'"' if in_tag => {
+                let mut j = i + 1;
+                while j < bytes.len() && bytes[j] != b'"' {
+                    j += 1;
+                }
+                spans.push((i + 1, j));
+                i = j;
+            }
+            _ => {}
+        }
+        i += 1;
+    }
+    spans
+}
+
 pub fn stressors() -> Vec<(String, String)> {
     let depth = 100_000;
     let chain = format!("{}{}", "<a>".repeat(depth), "</a>".repeat(depth));
@@ -518,22 +582,7 @@ pub fn run(tier: &str, rec: &Recorder) -> RunOutput {
             "target", "directed", "sourceport", "targetport", "for", "attr.name", "attr.type", "key", "xmlns", "xml:lang", "weight", "count", "size", "capacity",
         ];
         let values = ["", "0", "-1", "1", "18446744073709551615", "4611686018427387903", "9223372036854775808", "99999999999999999999999999", "1e999", "NaN", "true", "a", "&amp;", " "];
-        // positions just before the '>' or '/>' of every tag
-        let bytes = base.as_bytes();
-        let mut tag_ends: Vec<usize> = vec![];
-        let mut i = 0;
-        while i < bytes.len() {
-            if bytes[i] == b'<' && i + 1 < bytes.len() && bytes[i + 1] != b'/' {
-                let mut j = i;
-                while j < bytes.len() && bytes[j] != b'>' {
-                    j += 1;
-                }
-                let end = if j > 0 && bytes[j - 1] == b'/' { j - 1 } else { j };
-                tag_ends.push(end);
-                i = j;
-            }
-            i += 1;
-        }
+        let tag_ends = tag_ends(&base);
         for (ti, &pos) in tag_ends.iter().enumerate() {
             for a in attrs {
                 for v in values {
@@ -541,6 +590,26 @@ pub fn run(tier: &str, rec: &Recorder) -> RunOutput {
                     let case = format!("attr:{ti}:{a}:{v}");
                     wd.enter(&case);
                     c.inc("attribute_injections");
+                    check_doc(&doc, &case, SPEC_MENU[0], rec, &mut c);
+                    wd.leave();
+                }
+            }
+        }
+        total.lock().unwrap().merge(&c);
+    }
+    // --- stage 1c: every attribute value and every text node of the hand-written bases replaced by every text of a
+    //     menu with long, non-ASCII and multi-byte strings (every byte offset falls inside a character for some entry)
+    {
+        let mut c = Counters::default();
+        let menu = text_menu();
+        for (bi, base) in [(2usize, bs[2].1.clone()), (3usize, bs[3].1.clone())] {
+            let spans = value_spans(&base);
+            for (si, &(a, b)) in spans.iter().enumerate() {
+                for (mi, txt) in menu.iter().enumerate() {
+                    let doc = format!("{}{}{}", &base[..a], txt, &base[b..]);
+                    let case = format!("text:{bi}:{si}:{mi}");
+                    wd.enter(&case);
+                    c.inc("text_replacements");
                     check_doc(&doc, &case, SPEC_MENU[0], rec, &mut c);
                     wd.leave();
                 }
@@ -631,6 +700,26 @@ pub fn replay(case: &str, rec: &Recorder) -> bool {
             }
             String::from_utf8(bytes).ok()
         })
+    } else if let Some(rest) = main.strip_prefix("text:") {
+        let q: Vec<usize> = rest.split(':').filter_map(|x| x.parse().ok()).collect();
+        if q.len() == 3 {
+            let base = bases()[q[0]].1.clone();
+            let spans = value_spans(&base);
+            let menu = text_menu();
+            match (spans.get(q[1]), menu.get(q[2])) {
+                (Some(&(a, b)), Some(txt)) => Some(format!("{}{}{}", &base[..a], txt, &base[b..])),
+                _ => None,
+            }
+        } else {
+            None
+        }
+    } else if let Some(rest) = main.strip_prefix("attr:") {
+        let mut it = rest.splitn(3, ':');
+        let ti: usize = it.next().and_then(|x| x.parse().ok()).unwrap_or(0);
+        let a = it.next().unwrap_or("");
+        let v = it.next().unwrap_or("");
+        let base = bases()[3].1.clone();
+        tag_ends(&base).get(ti).map(|&pos| format!("{} {a}=\"{v}\"{}", &base[..pos], &base[pos..]))
     } else if let Some(rest) = main.strip_prefix("gr:") {
         let (tier, gi) = rest.split_once(':').unwrap_or(("quick", "0"));
         grammar_docs(tier).get(gi.parse::<usize>().unwrap_or(0)).cloned()
